@@ -359,6 +359,19 @@ func (vfs *OrefaFS) Link(oldname, newname string) error {
 		return &os.LinkError{Op: op, Old: oldname, New: newname, Err: vfs.err.NoSuchFile}
 	}
 
+	if oChild == nParent {
+		// newname is below oldname: both locks below would be taken on the same node.
+		err := vfs.err.NotADirectory
+		if oChild.mode.IsDir() {
+			err = vfs.err.OpNotPermitted
+			if vfs.OSType() == avfs.OsWindows {
+				err = avfs.ErrWinAccessDenied
+			}
+		}
+
+		return &os.LinkError{Op: op, Old: oldname, New: newname, Err: err}
+	}
+
 	oChild.mu.Lock()
 	defer oChild.mu.Unlock()
 
